@@ -1,7 +1,12 @@
 import SqlizeModel.Proofs.SpecTable
+import SqlizeModel.Proofs.SpecJustified
 
 namespace Sqlize
 open Spec
+
+theorem find_name' (db : DB) (t : String) (tb : TableSpec) (h : db.find t = some tb) : tb.name = t := by
+  obtain ⟨_, _, hn⟩ := find_getElem db t tb h
+  exact hn
 
 theorem nodup_allNodup (l : List String) (h : l.Nodup) : allNodup l = true := (ReaderMysql.allNodup_iff l).mpr h
 
@@ -166,7 +171,7 @@ theorem created_table_spec (g : Globals) (hg : g.dialect = .mysql) (rc : Bool)
     (t : String) (tbN : TableSpec) (hfn : dbN.find t = some tbN) (hnew : dbO.has t = false) (hnofk : tbN.fks = []) :
     ∃ td ∈ d.tables, td.name = t ∧ td.action = .add ∧
       ∃ cs is, td.migrationColumnUp g = .ok (cs, []) ∧ td.migrationIndexUp g [] = .ok is ∧
-        td.migrationForeignKeyUp [] = [] ∧
+        td.migrationForeignKeyUp [] = [] ∧ (∀ s ∈ cs ++ is, justified dbO dbN s = true) ∧
         ∀ db : DB, (db.map (·.name)).Nodup → db.has t = false →
           ∃ db' tb', execAll false db (cs ++ is) = some db' ∧ db'.find t = some tb' ∧ tb'.equiv tbN = true ∧
             (∀ u, u ≠ t → db'.find u = db.find u) ∧ db'.map (·.name) = db.map (·.name) ++ [t] := by
@@ -241,7 +246,63 @@ theorem created_table_spec (g : Globals) (hg : g.dialect = .mysql) (rc : Bool)
     unfold Table.migrationForeignKeyUp
     rw [hact, hfks]; rfl
   rw [hnmn] at hcs
-  refine ⟨td, htd_mem, hnmn, hact, _, _, hcs, his, hfs, ?_⟩
+  have hwfN : tbN.WF := execAll_wf rc new [] dbN hnc wf_empty hen tbN (mem_of_find hfn)
+  have hndI : (td.idxs.map (·.name)).Nodup := hi_n.idxs.nodup
+  have hfoNone : dbO.find t = none := by
+    cases hfo : dbO.find t with
+    | none => rfl
+    | some x =>
+      have := (has_iff dbO t).mpr (by rw [← find_name' dbO t x hfo]; exact List.mem_map_of_mem (mem_of_find hfo))
+      rw [hnew] at this; cases this
+  have hjust : ∀ s ∈ [Stmt.createTable t
+      ((td.cols.foldl (fun m c => max m c.name.utf8ByteSize) (((td.cols[0]?).map (·.name.utf8ByteSize)).getD 0)))
+      (td.cols.map (fun c => c.colDef false)) []] ++ td.idxs.flatMap (fun i => i.upStmts t), justified dbO dbN s = true := by
+    intro s hs
+    rcases List.mem_append.mp hs with h | h
+    · rw [List.mem_singleton.mp h]
+      show (!dbO.has t && dbN.has t) = true
+      have : dbN.has t = true := (has_iff dbN t).mpr (by rw [← find_name' dbN t tbN hfn]; exact List.mem_map_of_mem (mem_of_find hfn))
+      rw [hnew, this]; rfl
+    · obtain ⟨i, hi, hsi⟩ := List.mem_flatMap.mp h
+      have hl := hlive i hi
+      unfold Index.upStmts at hsi
+      rw [hl.add] at hsi
+      simp only at hsi
+      by_cases hp : i.name = pkName
+      · have hisPk : i.isPk = true := by rw [hl.pk, hp]; simp
+        rw [if_pos hisPk] at hsi
+        rw [List.mem_singleton.mp hsi]
+        show (dbO.pk t != dbN.pk t) = true
+        have h1 : dbO.pk t = [] := by unfold DB.pk; rw [hfoNone]; rfl
+        have h2 : dbN.pk t = i.cols := by
+          unfold DB.pk; rw [hfn]
+          show tbN.pk = i.cols
+          rw [← hpkv]
+          unfold pkOf
+          have hfind : td.idxs.find? (fun i => i.name == pkName) = some i := by
+            have := find?_of_mem_nodup (fun i : Index => i.name) td.idxs i hndI hi
+            rw [hp] at this; exact this
+          rw [hfind]; rfl
+        rw [h1, h2]
+        cases hc : i.cols with
+        | nil => exact absurd hc hl.ne
+        | cons _ _ => rfl
+      · have hisPk : i.isPk = false := by rw [hl.pk]; simpa using hp
+        rw [if_neg (by simp [hisPk])] at hsi
+        rw [List.mem_singleton.mp hsi]
+        show (dbO.idx t i.name != dbN.idx t i.name) = true
+        have h1 : dbO.idx t i.name = none := by unfold DB.idx; rw [hfoNone]; rfl
+        have hm : i.toSpec ∈ tbN.idxs := by
+          rw [← hvi]
+          unfold idxSpecOf
+          exact List.mem_map_of_mem (List.mem_filter.mpr ⟨hi, by simpa using hp⟩)
+        have hndS : (tbN.idxs.map (·.name)).Nodup := by
+          rw [← hvi, idxSpecOf_names]
+          exact hndI.sublist List.filter_sublist
+        have h2 := idx_some_of_mem dbN t tbN hfn hndS _ hm
+        have h2 : dbN.idx t i.name = some i.toSpec := h2
+        rw [h1, h2]; rfl
+  refine ⟨td, htd_mem, hnmn, hact, _, _, hcs, his, hfs, hjust, ?_⟩
   intro db hnd hnot
   -- CREATE TABLE
   have hplain := (hpln td hmemn).opts
@@ -286,9 +347,7 @@ theorem created_table_spec (g : Globals) (hg : g.dialect = .mysql) (rc : Bool)
   have hf0 : (db ++ [tb0]).find t = some tb0 :=
     find_of_getElem (db ++ [tb0]) hnd0 db.length tb0 (by simp)
   -- the indexes and the key
-  have hwfN : tbN.WF := execAll_wf rc new [] dbN hnc wf_empty hen tbN (mem_of_find hfn)
   have hpkN : tbN.PkIn := execAll_pkin rc new [] dbN hnc pkin_empty hen tbN (mem_of_find hfn)
-  have hndI : (td.idxs.map (·.name)).Nodup := hi_n.idxs.nodup
   obtain ⟨db', tb', he', hf', hn', hc', hfk', hi', hp', hother, hnames'⟩ :=
     exec_added_idxs td.idxs (db ++ [tb0]) t tb0 hnd0 hf0 hlive hndI (fun _ _ _ => rfl) (Or.inl rfl)
       (by
